@@ -456,6 +456,12 @@ class Gen:
                 kind = r.randint(0, 6)
                 e2 = dict(env)
                 c2 = dict(ctx, loop=True)
+                its: list[str] = []       # iterable operands of this loop
+
+                def it(ty: str) -> str:
+                    ex = self.expr(ty, env, 2)
+                    its.append(ex)
+                    return ex
                 if kind == 0:
                     v = self.fresh(INT)
                     a = r.choice(["", f"{r.randint(-3, 3)}, "])
@@ -464,29 +470,29 @@ class Gen:
                     e2[v] = INT
                 elif kind == 1:
                     v = self.fresh(INT)
-                    L.append(f"{ind}for {v} in {self.expr(r.choice([LI, LI, SI]), env, 2)}:")
+                    L.append(f"{ind}for {v} in {it(r.choice([LI, LI, SI]))}:")
                     e2[v] = INT
                 elif kind == 2:
                     v = self.fresh(STR)
-                    L.append(f"{ind}for {v} in {self.expr(r.choice([LS, DSI, STR]), env, 2)}:")
+                    L.append(f"{ind}for {v} in {it(r.choice([LS, DSI, STR]))}:")
                     e2[v] = STR
                 elif kind == 3:
                     v, w = self.fresh(INT), self.fresh(STR)
                     self.f("enumerate")
-                    L.append(f"{ind}for {v}, {w} in enumerate({self.expr(LS, env, 2)}):")
+                    L.append(f"{ind}for {v}, {w} in enumerate({it(LS)}):")
                     e2[v] = INT; e2[w] = STR
                 elif kind == 4:
                     v, w = self.fresh(STR), self.fresh(INT)
                     self.f("dict-items")
-                    L.append(f"{ind}for {v}, {w} in {self.expr(DSI, env, 2)}.items():")
+                    L.append(f"{ind}for {v}, {w} in {it(DSI)}.items():")
                     e2[v] = STR; e2[w] = INT
                 elif kind == 5:
                     v, w = self.fresh(INT), self.fresh(STR)
                     self.f("zip")
-                    L.append(f"{ind}for {v}, {w} in zip({self.expr(LI, env, 2)}, {self.expr(LS, env, 2)}):")
+                    L.append(f"{ind}for {v}, {w} in zip({it(LI)}, {it(LS)}):")
                     e2[v] = INT; e2[w] = STR
                 else:
-                    gi = [g for g, it in self.gens.items() if it == INT]
+                    gi = [g for g, it_ in self.gens.items() if it_ == INT]
                     v = self.fresh(INT)
                     if gi:
                         self.f("for-over-generator")
@@ -494,6 +500,9 @@ class Gen:
                     else:
                         L.append(f"{ind}for {v} in range(3):")
                     e2[v] = INT
+                # a sequence *variable* iterated by the loop is not rebound in the body: compiled code would go on
+                # with the new object (known finding C05-N7, probed in ops.py) and the whole program would diverge
+                c2["frozen"] = set(c2.get("frozen", ())) | {x for x in its if x in env}
                 body = self.block(e2, depth + 1, ind + "    ", c2)
                 if r.random() < 0.3:
                     body.append(f"{ind}    if {self.expr(BOOL, e2, 2)}:")
